@@ -326,6 +326,10 @@ def create_for_folder_subcommand(
         found_file_paths = set()
         for new_path in new_paths:
             for not_found_path in not_found_paths:
+                # a file does not turn into a folder by being renamed (or the other way round), the digests of
+                # an empty file and of an empty folder are the same though
+                if os.path.isdir(new_path) != existing_history.is_recorded_as_directory(not_found_path):
+                    continue
                 # find hashes to not_found_path and new_path
                 not_found_path_history, relative_not_found_path = existing_history.find_history_for_path(
                     existing_history.get_relative_file_path(not_found_path)
